@@ -187,6 +187,7 @@ type World struct {
 	syncOK      int
 
 	killDaemonSoon bool
+	halfWritten    map[string]bool // files created (truncated) by the daemon whose write has not happened yet
 	crashBudget    int
 	crashAt        int
 	foreign        []string // foreign ports bound during the run
@@ -210,7 +211,7 @@ func (w *World) armed(p string) bool { return w.prop == p }
 func NewWorld(s *core.Sim, prop string, cfg *Config, solo *SoloSpec) *World {
 	w := &World{S: s, C: s.C, prop: prop, prof: profileFor(prop), solo: solo, byID: map[string]*Container{}, cur: map[int]*Container{},
 		made: map[int]int{}, reqs: map[string]*Request{}, attempts: map[string]int{}, leftovers: map[string]*Leftover{},
-		gcBusy: map[string]*core.Task{}, gcState: map[*core.Task]*gcTaskState{}}
+		gcBusy: map[string]*core.Task{}, gcState: map[*core.Task]*gcTaskState{}, halfWritten: map[string]bool{}}
 	c := w.C
 	if cfg == nil {
 		cfg = genConfig(c, prop)
@@ -307,6 +308,10 @@ func (w *World) createPodObject(p *PodDef) {
 	}
 	if p.OtherNode {
 		pod.Spec.NodeName = "node2"
+		pod.Status.PodIP = fmt.Sprintf("172.16.99.%d", 10+p.Idx)
+	}
+	if p.HostNetwork {
+		pod.Status.PodIP = "192.168.1.10"
 	}
 	if p.WantENI {
 		q := resource.NewQuantity(1, resource.DecimalSI)
@@ -341,6 +346,12 @@ func (w *World) killDaemon(crash bool) {
 	w.S.Kill(w.proc)
 	n := w.Net.DropProc(w.proc)
 	w.S.Logf("daemon killed (crash=%v): %d sockets closed", crash, n)
+	if crash && len(w.halfWritten) > 0 {
+		// a file had been created/truncated but its content not yet written: the write is lost
+		w.S.Stat("fault.fs.lost")
+		w.S.Sig("F:fs.lost")
+	}
+	w.halfWritten = map[string]bool{}
 	w.inst = nil
 	w.ready, w.down = false, true
 	for _, r := range w.inflight {
@@ -606,7 +617,7 @@ func (w *World) Actions() []core.Action {
 		if w.opsLeft > 0 && busy < w.maxInfl && (calm || busy == 0 || w.S.Steps-w.lastOp >= w.opGap) {
 			acts = append(acts, core.Action{Name: "op", Do: func() { w.lastOp = w.S.Steps; w.doOp() }})
 		}
-		if w.prof.Crash && w.faultsOn && busy > 0 && w.crashBudget > 0 && w.S.Steps >= w.crashAt {
+		if w.prof.Crash && w.faultsOn && w.crashBudget > 0 && w.S.Steps >= w.crashAt {
 			acts = append(acts, core.Action{Name: "crash", Do: func() {
 				w.crashBudget--
 				w.crashAt = w.S.Steps + 30 + w.C.Choose(300)
